@@ -304,6 +304,33 @@ PROPS = {
         'trusted_base': ['Kani 0.68.0 + CBMC 6.11', 'reference parser in tools/gen_optparse.py'],
         'assumptions': ['Mode::with_extensions only', 'two fixed option tables'],
     },
+    'C02': {
+        'v_units': ['cmdsearch', 'looplevel'],
+        'k_units': ['loopcount'],
+        'level': 'other',
+        'explanation': (
+            'Two synchronous kernels of C02, nothing more. (1) Command search: Verus proves on the real '
+            'yash-env/src/semantics/command/search.rs that classify() resolves a name in the order of XCU 2.9.1.4 - a name with a slash is '
+            'a path; otherwise a special built-in, then a function, then any other built-in, then an external utility - as a function of what '
+            'the environment answers for the name (ghost views on the real traits ClassifyEnv / PathEnv), returning the very built-in or '
+            'function found; that search() keeps that order and then settles the path: a substitutive built-in counts only if $PATH has a '
+            'utility of that name (otherwise Unusable(NotInPath)), a built-in POSIX does not define is Unusable(NotPortable) in portable mode, an '
+            'external name without a slash is found exactly when the $PATH walk finds it (otherwise NotFound, i.e. 127), a name with a slash '
+            'is used as it is, a function is never "not found"; the environment is not changed. (2) Loop levels: Verus proves that break n / '
+            'continue n (yash-builtin/src/break/semantics.rs, continue/semantics.rs run) are an error exactly outside any loop of the current '
+            'execution environment and otherwise divert with count = min(n, enclosing loops) - 1, from a contract of Stack::loop_count that '
+            'Kani checks on the real function (bounded: every stack of <= 3 frames quick / 4 thorough over six frame kinds, any max_count): '
+            'the enclosing loops are counted from the innermost frame outwards up to the first subshell, dot-script, trap or init-file frame. '
+            'NOT decided: everything else C02 says - which commands run in which order with which $?, and-or lists, pipelines, negation, '
+            'if/while/for/case, functions and return, the decoding of Break/Continue diverts by the loops (async executors), the $PATH walk '
+            'itself (search_path: iterator adapters over strings, assumed), Env::builtin (availability under posixly-correct / portable).'),
+        'trusted_base': ['Verus 0.2026.09.13 + Z3', 'Kani 0.68.0 + CBMC 6.11', '/verif/tools/vextract.py, /verif/tools/kunit.py'],
+        'assumptions': [
+            'unit cmdsearch: the methods of ClassifyEnv / PathEnv answer according to ghost views builtin_of / function_of / path_hit (implementor obligation, not verified); search_path is external_body (returns path_hit, leaves the environment alone); str::contains(char), CString::default / new are opaque helpers; Builtin / Function reduced to what the search reads; the raw identifier r#type is renamed (Verus aborts on it); derived PartialEq of Type is structural',
+            'unit looplevel: Stack::loop_count is external_body with the contract the Kani unit loopcount checks (bounded); NonZeroUsize::get returns the non-zero number; ExitStatus::SUCCESS = ExitStatus(0); Field and trap::Condition are placeholders',
+            'unit loopcount (Kani): Frame::Builtin frames are not among the generated frames',
+        ],
+    },
     'C09': {
         'v_units': ['redir'],
         'k_units': [],
